@@ -201,6 +201,39 @@ pub fn cases_for(prop: &str, tier: &str, seed: u64, shard: (usize, usize)) -> (V
                 cases.push(c);
             }
         }
+        "C01" => {
+            let n = budget(tier, 2400, 60000) / shard.1;
+            let all = format!("(plan {})", crate::op_validate::ALL_RULES.join(" "));
+            for i in 0..n {
+                let si_idx = rng.below(pool.len() - 1);
+                let depth = 2 + rng.below(4);
+                let mut g = crate::genvalid::VGen::new(rng.fork(), &pool[si_idx], depth);
+                let doc = g.doc();
+                cases.push(Case { id: format!("ok{}x{}", shard.0, i), family: "valid-by-construction".into(), schema: si_idx, op: "validate".into(),
+                    doc: Some(doc.print()), extra: vec![all.clone()], note: String::new() });
+            }
+        }
+        "C02" => {
+            let n = budget(tier, 1500, 40000) / shard.1;
+            let all = format!("(plan {})", crate::op_validate::ALL_RULES.join(" "));
+            for i in 0..n {
+                let si_idx = rng.below(pool.len() - 1);
+                let depth = 2 + rng.below(3);
+                let mut g = crate::genvalid::VGen::new(rng.fork(), &pool[si_idx], depth);
+                let doc = g.doc();
+                let m = crate::genvalid::MUTATIONS[(i + shard.0) % crate::genvalid::MUTATIONS.len()];
+                if let Some(md) = crate::genvalid::mutate(&doc, m, &mut rng, &pool[si_idx]) {
+                    cases.push(Case { id: format!("mut{}x{}", shard.0, i), family: format!("inject:{}", m), schema: si_idx, op: "validate".into(),
+                        doc: Some(md.print()), extra: vec![all.clone()], note: m.to_string() });
+                }
+            }
+            let mut tmp: Vec<Case> = vec![];
+            family_random_docs(&mut tmp, &pool, &mut rng, n / 3, "validate", &format!("rnd{}x", shard.0), false);
+            for mut c in tmp {
+                c.extra = vec![all.clone()];
+                cases.push(c);
+            }
+        }
         "VAL" => {
             // development job: default plan + every singleton on random documents
             let n = budget(tier, 1600, 40000) / shard.1;
